@@ -692,3 +692,117 @@ def install_time_fs(ex):
     A(r"^std::fs::File::set_modified$", _set_modified, "File::set_modified (recorded as an effect; outcome arbitrary)")
     A(r"^std::fs::Metadata::modified$", _meta_modified, "Metadata::modified (input value)")
     ex.models = M + ex.models
+
+
+# ----------------------------------------------------------------- str / Path helpers for is_excluded
+# Strings and relative paths are VSeq of chars.  Path::components is modelled ONLY for relative paths made of
+# '/'-separated names that are neither "." nor ".." (what a directory walk produces) — stated as an assumption.
+
+COMPONENT = {"Prefix": 0, "RootDir": 1, "CurDir": 2, "ParentDir": 3, "Normal": 4}
+
+
+def _str_of(ex, st, v):
+    while isinstance(v, VRef):
+        v = ex.deref(st, v)
+    if isinstance(v, VStruct) and v.name in ("Cow", "String"):
+        v = v.f[0]
+    if not isinstance(v, VSeq):
+        raise Unsupported("expected a string, got %r" % (v,))
+    return v
+
+
+def _string_deref(ex, st, args, dest_ty, func, where):
+    return VRef("val", val=_str_of(ex, st, args[0]))
+
+
+def _trim_end_matches(ex, st, args, dest_ty, func, where):
+    s = _str_of(ex, st, args[0])
+    c = args[1].t
+    cap = ex.str_cap
+    ex.oblig("model-bound", where, "string longer than the model capacity %d" % cap, z3.And(st.guard, s.len > cap))
+    # new length = 1 + index of the last char != c (0 if none)
+    n = I(0)
+    for i in range(cap):
+        n = z3.If(z3.And(i < s.len, s.at(I(i)) != c), I(i + 1), n)
+    return VRef("val", val=VSeq(s.arr, s.off, simp(n), s.elem))
+
+
+def _str_is_empty(ex, st, args, dest_ty, func, where):
+    return VBool(simp(_str_of(ex, st, args[0]).len == 0))
+
+
+def _str_contains_char(ex, st, args, dest_ty, func, where):
+    s = _str_of(ex, st, args[0])
+    c = args[1].t
+    cap = ex.str_cap
+    ex.oblig("model-bound", where, "string longer than the model capacity %d" % cap, z3.And(st.guard, s.len > cap))
+    return VBool(simp(z3.Or(*[z3.And(i < s.len, s.at(I(i)) == c) for i in range(cap)])))
+
+
+def _to_string_lossy(ex, st, args, dest_ty, func, where):
+    return VStruct("Cow", [_str_of(ex, st, args[0])])
+
+
+def _components(ex, st, args, dest_ty, func, where):
+    return VStruct("Components", [_str_of(ex, st, args[0]), VInt(I(0), "usize")])
+
+
+def _components_next(ex, st, args, dest_ty, func, where):
+    ref = args[0]
+    it = ex.deref(st, ref)
+    s, pos = it.f[0], it.f[1].t
+    cap = ex.str_cap
+    SL = ord("/")
+    # start = first index >= pos that is < len and not '/'
+    start = s.len
+    for j in reversed(range(cap)):
+        start = z3.If(z3.And(j >= pos, j < s.len, s.at(I(j)) != SL), I(j), start)
+    start = simp(start)
+    has = simp(start < s.len)
+    end = s.len
+    for j in reversed(range(cap)):
+        end = z3.If(z3.And(j > start, j < s.len, s.at(I(j)) == SL), I(j), end)
+    end = simp(end)
+    comp = VSeq(s.arr, simp(s.off + start), simp(end - start), s.elem)
+    ex.store_ref(st, ref, VStruct("Components", [s, VInt(simp(z3.If(has, end, s.len)), "usize")]))
+    item = VEnum("Component", I(COMPONENT["Normal"]), {COMPONENT["Normal"]: [VRef("val", val=comp)]})
+    return opt_sym(has, item)
+
+
+def _strings_into_iter(ex, st, args, dest_ty, func, where):
+    v = args[0]
+    while isinstance(v, VRef):
+        v = ex.deref(st, v)
+    if not isinstance(v, VList):
+        raise Unsupported("expected a list of strings, got %r" % (v,))
+    return VStruct("SliceIter", [v, VInt(I(0), "usize")])
+
+
+def _strings_next(ex, st, args, dest_ty, func, where):
+    ref = args[0]
+    it = ex.deref(st, ref)
+    s, idx = it.f
+    has = simp(idx.t < s.len) if s.items else z3.BoolVal(False)
+    ex.store_ref(st, ref, VStruct("SliceIter", [s, VInt(simp(z3.If(has, idx.t + 1, idx.t)), "usize")]))
+    elem = list_get(s, idx.t) if s.items else VOpaque("no element")
+    return opt_sym(has, VRef("val", val=elem))
+
+
+def install_strings(ex, str_cap):
+    ex.str_cap = str_cap
+    ex.enums.setdefault("Component", dict(COMPONENT))
+    M = []
+
+    def A(pat, h, label):
+        M.append((re.compile(pat), h, label))
+    A(r"^<&\[(std::string::)?String\] as IntoIterator>::into_iter$", _strings_into_iter, "<&[String] as IntoIterator>::into_iter")
+    A(r"^<std::slice::Iter<'_, (std::string::)?String> as Iterator>::next$", _strings_next, "slice::Iter<String>::next")
+    A(r"^<(std::string::)?String as (std::ops::)?Deref>::deref$|^(std::string::)?String::as_str$|^<(std::string::)?String as AsRef<str>>::as_ref$", _string_deref, "<String as Deref>::deref / as_str")
+    A(r"^core::str::<impl str>::trim_end_matches::<char>$", _trim_end_matches, "str::trim_end_matches(char)")
+    A(r"^core::str::<impl str>::is_empty$", _str_is_empty, "str::is_empty")
+    A(r"^core::str::<impl str>::contains::<char>$", _str_contains_char, "str::contains(char)")
+    A(r"^(std::path::)?Path::to_string_lossy$|^std::ffi::OsStr::to_string_lossy$", _to_string_lossy, "Path/OsStr::to_string_lossy (valid UTF-8: identity)")
+    A(r"^<(std::borrow::)?Cow<'_, str> as (std::ops::)?Deref>::deref$", _string_deref, "<Cow<str> as Deref>::deref")
+    A(r"^(std::path::)?Path::components$", _components, "Path::components (relative path of plain names: '/'-separated non-empty pieces)")
+    A(r"^<(std::path::)?Components<'_> as Iterator>::next$", _components_next, "Components::next (Normal components only, under the stated assumption)")
+    ex.models = M + ex.models
